@@ -1,3 +1,5 @@
+#[cfg(feature = "iggy_verif")]
+use iggy::verif::tokio;
 use crate::state::system::StreamState;
 use crate::streaming::storage::StreamStorage;
 use crate::streaming::streams::stream::Stream;
